@@ -54,6 +54,12 @@ def abstract_digest(run):
     return h.hexdigest()[:16]
 
 
+import re as _re
+
+_ADDR = _re.compile(r"0x[0-9a-fA-F]{6,}")
+_ADDRB = _re.compile(rb"0x[0-9a-fA-F]{6,}")
+
+
 def full_digest(run):
     """byte-exact event log digest used by the determinism self-test"""
     h = hashlib.sha1()
@@ -62,9 +68,10 @@ def full_digest(run):
         if inv is None:
             continue
         root = str(run.work)
-        h.update(json.dumps([list(map(str, e)) for e in inv.trace]).replace(root, "$ROOT").encode())
-        h.update(inv.out.replace(root.encode(), b"$ROOT"))
-        h.update(inv.err.replace(root.encode(), b"$ROOT"))
+        # object addresses show up in "Exception ignored in: <function ... at 0x...>" messages
+        h.update(_ADDR.sub("0xADDR", json.dumps([list(map(str, e)) for e in inv.trace]).replace(root, "$ROOT")).encode())
+        h.update(_ADDRB.sub(b"0xADDR", inv.out.replace(root.encode(), b"$ROOT")))
+        h.update(_ADDRB.sub(b"0xADDR", inv.err.replace(root.encode(), b"$ROOT")))
         h.update(repr((inv.code, inv.n, inv.cp, inv.ki)).encode())
         if st.after is not None:
             h.update(json.dumps(st.after, sort_keys=True, default=str).replace(root, "$ROOT").encode())
